@@ -65,6 +65,8 @@ class ProbeMini(M.MiniSSH):
         self.hook = None                    # (msgtype, [payloads])
         self.inject_pos = None              # (n, [payloads]): before our own n-th framed packet (0-based)
         self.own_count = 0
+        self.inject_after = None            # (n, [payloads]): right behind our own n-th packet, before it is delivered
+        self.nprobes = 0
 
     def _frame(self, payload, **kw):
         if self.hook and payload and payload[0] == self.hook[0]:
@@ -77,13 +79,20 @@ class ProbeMini(M.MiniSSH):
                 self._frame1(p, True)
         self.own_count += 1
         self._frame1(payload, False, **kw)
+        if self.inject_after and self.inject_after[0] == self.own_count - 1:
+            pls, self.inject_after = self.inject_after[1], None
+            for p in pls:
+                self._frame1(p, True)
 
     def _frame1(self, payload, is_probe, **kw):
         start, seq = len(self._out), self.send_seq
         M.MiniSSH._frame(self, payload, **kw)
         wire = bytes(self._out[start:])
         del self._out[start:]
-        self.pkts.append({'probe': is_probe, 'wire': wire, 'seq': seq, 'payload': bytes(payload)})
+        self.pkts.append({'probe': is_probe, 'wire': wire, 'seq': seq, 'payload': bytes(payload),
+                          'pidx': self.nprobes if is_probe else None})
+        if is_probe:
+            self.nprobes += 1
 
     def inject_now(self, payloads):
         for p in payloads:
@@ -449,7 +458,8 @@ class Sess:
             self.conn.data_received(b''.join(c['wire'] for c in chunk))
         await self.settle()
         self.feed_mini()
-        self.steps.append({'chunk': [{'probe': c['probe'], 'payload': c['payload'], 'seq': c['seq']} for c in chunk],
+        self.steps.append({'chunk': [{'probe': c['probe'], 'payload': c['payload'], 'seq': c['seq'],
+                                      'pidx': c.get('pidx')} for c in chunk],
                            'outs': self._outs_since(mark_rx), 'closed': self.ep_closed})
         self._step_mark = len(self.rx)
         if has_probe:
@@ -689,7 +699,10 @@ async def run_session(role, strict, phase=None, probes=(), glue=None, pos=None):
     s = Sess(role, strict)
     s.glue = glue
     if pos is not None:
-        s.mini.inject_pos = (pos, [bytes(p) for p in probes])
+        if glue == 'prev' and pos > 0:
+            s.mini.inject_after = (pos - 1, [bytes(p) for p in probes])
+        else:
+            s.mini.inject_pos = (pos, [bytes(p) for p in probes])
     final = ('completed',)
     try:
         await (script_vs_server if role == 'server' else script_vs_client)(s, phase, [bytes(p) for p in probes])
@@ -917,6 +930,11 @@ async def _batch(jobs):
             res['reaction'] = _canon({'rx': strip_seq(rc['rx']), 'ev': rc['ev'], 'closed': rc['closed'],
                                       'step': rc['step'], 'seqs': rc['seqs']}) if rc else None
             res['ev'] = _canon(tr['ev'])
+        if job.get('steps'):
+            res['coq_steps'] = coq_steps(tr, job.get('mal', ()))
+            res['nsteps'] = len(tr['steps'])
+            res['ev'] = _canon(tr['ev'])
+            res['sent50'] = sum(1 for m in tr['rx'] if m[0] == M.MSG_USERAUTH_REQUEST)
         if job.get('detail'):
             res['rx'] = _canon(tr['rx'])
             res['twin_ev'] = _canon(twins[key]['ev'])
@@ -1000,6 +1018,8 @@ def classify(payload, to_role, genuine):
             cls = 0 if len(r.get_string()) == 32 else 1
         elif t == 31:
             cls = 0 if genuine else 1
+        elif t == 21:
+            cls = 0 if genuine else 1
         elif t in (5, 6):
             cls = 0 if r.get_string() == b'ssh-userauth' else 1
         elif t == 50:
@@ -1022,20 +1042,19 @@ def classify(payload, to_role, genuine):
     return t, cls
 
 
-def coq_steps(tr, mal_probes=False):
-    """The steps of a transcript as a Coq literal of type list ostep."""
+def coq_steps(tr, mal=()):
+    """The steps of a transcript as a Coq literal of type list ostep; mal[i] = probe i has a damaged body."""
     to_role = tr['role']
     out = []
     for st in tr['steps']:
         chunk = []
         for c in st['chunk']:
             t, cls = classify(c['payload'], to_role, not c['probe'])
-            chunk.append('(%s,%s,%s)' % (_cz(t), _cz(cls), 'true' if (c['probe'] and mal_probes) else 'false'))
-        obs = []
-        for (t, a, q) in st['outs']:
-            if t == 'mini_failed':
-                continue
-            obs.append('(%d,%d,%d)' % (t, a, q))
+            chunk.append('(%s,%s,%s)' % (_cz(t), _cz(cls), 'true' if (c['probe'] and c.get('pidx') is not None and c['pidx'] < len(mal) and mal[c['pidx']])
+                                         else 'false'))
+        if any(t == 'mini_failed' for (t, a, q) in st['outs']):
+            break            # MiniSSH (the observer) gave up on what it received: nothing reliable from here on
+        obs = ['(%d,%d,%d)' % (t, a, q) for (t, a, q) in st['outs']]
         out.append('([%s],[%s],%s)' % (';'.join(chunk), ';'.join(obs), 'true' if st['closed'] else 'false'))
     return '[' + ';'.join(out) + ']'
 
@@ -1053,3 +1072,23 @@ def coq_chunks(steps, to_role):
 
 def _cz(n):
     return '(%d)' % n if n < 0 else str(n)
+
+
+def _loop():
+    loop = _ENV.get('loop')
+    if loop is None or loop.is_closed():
+        for k in ('acceptor', 'acc_sess', 'cli_options'):
+            _ENV.pop(k, None)
+        loop = _ENV['loop'] = asyncio.new_event_loop()
+        loop.set_default_executor(InlineExecutor(max_workers=1))
+    asyncio.set_event_loop(loop)
+    return loop
+
+
+def run_one(role, strict, phase=None, probes=(), glue=None, pos=None):
+    """One session in this process (blocking)."""
+    return _loop().run_until_complete(run_session(role, strict, phase, probes, glue=glue, pos=pos))
+
+
+def run_twin(role, strict):
+    return run_one(role, strict)
